@@ -95,6 +95,12 @@ func (p Precompile) Run(evm *vm.EVM, contract *vm.Contract, readOnly bool) (bz [
 		return nil, err
 	}
 
+	// Run the method on a cached context: a call that fails after it has already
+	// changed Cosmos state must leave nothing behind, because the EVM only
+	// reverts its own journal for the failed call.
+	parentCtx := ctx
+	ctx, writeCache := parentCtx.CacheContext()
+
 	switch method.Name {
 	// Authorization transactions
 	case authorization.ApproveMethod:
@@ -143,6 +149,8 @@ func (p Precompile) Run(evm *vm.EVM, contract *vm.Contract, readOnly bool) (bz [
 	if !contract.UseGas(cost) {
 		return nil, vm.ErrOutOfGas
 	}
+
+	writeCache()
 
 	return bz, nil
 }
